@@ -181,6 +181,15 @@ class SymbolTable:
             return None
         return self._parent.find_symbol(s)
 
+    def is_local_python_name(self, name: str) -> bool:
+        """Return True if `name` is the Python name of a local (function parameter,
+        let binding, etc.) in this frame or any enclosing frame below the top level."""
+        if self._parent is None:
+            return False
+        if any(entry.munged == name for entry in self._table.values()):
+            return True
+        return self._parent.is_local_python_name(name)
+
     @contextlib.contextmanager
     def new_frame(self, name: str, is_context_boundary: bool):
         """Context manager for creating a new stack frame."""
@@ -3307,7 +3316,7 @@ def __name_in_module(name: str, module: BasilispModule) -> str | None:
 
 
 def __var_direct_link_to_py_ast(
-    current_ns: runtime.Namespace,
+    ctx: GeneratorContext,
     var: runtime.Var,
     py_var_ctx: PyASTCtx,
 ) -> GeneratedPyAST[ast.expr] | None:
@@ -3316,12 +3325,19 @@ def __var_direct_link_to_py_ast(
 
     We can direct link a Var if and only if a munged version of the Var name can be
     found in the Var namespace module."""
+    current_ns = ctx.current_ns
     var_ns = var.ns
     var_name = var.name.name
 
     safe_name = __name_in_module(var_name, var_ns.module)
     if safe_name is not None:
         if var_ns is current_ns:
+            # A bare Python name would be captured by a local of the same name (function
+            # parameters keep their munged names), so such references must go through
+            # the Var instead. Only namespace qualified symbols (such as those emitted
+            # by syntax quote) can refer to a Var while a local of that name is in scope.
+            if ctx.symbol_table.is_local_python_name(safe_name):
+                return None
             return GeneratedPyAST(node=ast.Name(id=safe_name, ctx=py_var_ctx))
 
         safe_ns = _var_ns_as_python_sym(var_ns.name)
@@ -3406,7 +3422,7 @@ def _var_sym_to_py_ast(
         return __var_find_to_py_ast(var_name, var_ns_name, py_var_ctx)
 
     # Otherwise, try to direct-link it like a Python variable
-    direct_link = __var_direct_link_to_py_ast(ctx.current_ns, var, py_var_ctx)
+    direct_link = __var_direct_link_to_py_ast(ctx, var, py_var_ctx)
     if direct_link is not None:
         return direct_link
 
